@@ -2,11 +2,13 @@
 mod uris;
 mod c30;
 mod c31;
+mod c29;
 
 fn run(name: &str, ctx: &mut rvcore::Ctx) -> bool {
     match name {
         "c30" => c30::run_c30(ctx),
         "c31" => c31::run_c31(ctx),
+        "c29" => c29::run_c29(ctx),
         _ => return false
     }
     true
